@@ -1489,4 +1489,85 @@ func run(c *mon.Ctx) {
 	c.Floor("handle.own_mid_reordered", 500)
 	c.Floor("handle.own_components_reordered", 500)
 	c.Stream("decoded-edit", c.N(8000, 4000000), func(i int, r *gen.Rand) { decodedEdit(c, r) })
+	// a decoded section with foreign descriptors at several positions, then a shorter list of segmentation descriptors
+	// is set: every foreign descriptor is still there, in the order it came in, and encoding stays idempotent
+	c.Floor("list_replaced.cases", 300)
+	c.Stream("decoded-then-list-replaced", c.N(1500, 300000), func(i int, r *gen.Rand) {
+		s := ref.GenSig(r, false)
+		s.Descs = nil
+		var foreign [][]byte
+		for k := 2 + r.Intn(5); k > 0; k-- {
+			if r.Bool() || k == 1 {
+				s.Descs = append(s.Descs, ref.GenSegDesc(r, false))
+			}
+			if r.Bool() || k == 2 {
+				f := ref.SegDesc{Foreign: true, Tag: r.PickByte([]byte{0x00, 0x01, 0x03, 0x80, 0xfe}), Body: append([]byte("ABCD"), r.Bytes(r.Intn(6))...)}
+				f.Body = append(f.Body, byte(len(foreign))) // (makes every foreign descriptor distinct)
+				s.Descs = append(s.Descs, f)
+				foreign = append(foreign, f.Enc())
+			}
+		}
+		x, err := scte35.NewSCTE35(s.Payload())
+		if err != nil || x == nil {
+			c.Fail("list-replaced:decode-error", fmt.Sprintf("a canonical section was rejected: %v", err), wit{Shape: s35.Shape(&s), Input: mon.Hex(s.Payload())})
+			return
+		}
+		ds := x.Descriptors()
+		if len(ds) == 0 || len(foreign) < 2 {
+			return
+		}
+		var keep []scte35.SegmentationDescriptor
+		for _, d := range ds {
+			if r.Bool() {
+				keep = append(keep, d)
+			}
+		}
+		if r.Chance(4) {
+			keep = ds[:len(ds)-1]
+		}
+		x.SetDescriptors(keep)
+		enc1 := append([]byte{}, x.UpdateData()...)
+		enc2 := x.UpdateData()
+		c.Eval(1)
+		c.Count("list_replaced.cases")
+		w := wit{Shape: s35.Shape(&s), Input: mon.Hex(s.Payload()), Got: mon.Hex(enc1), Detail: fmt.Sprintf("%d of %d segmentation descriptors kept through SetDescriptors", len(keep), len(ds))}
+		if !bytes.Equal(enc1, enc2) {
+			c.Fail("list-replaced:not-idempotent", "after SetDescriptors with a shorter list two encodings in a row differ", w)
+			return
+		}
+		if len(enc1) < 20 || ref.CRC32MPEG2(enc1) != 0 {
+			c.Fail("list-replaced:crc", "after SetDescriptors with a shorter list the encoded section has no zero CRC-32/MPEG-2", w)
+			return
+		}
+		cl := int(enc1[11]&0x0f)<<8 | int(enc1[12])
+		at := 14 + cl
+		if at+2 > len(enc1)-4 {
+			c.Fail("list-replaced:layout", "the encoded section ends before its descriptor loop", w)
+			return
+		}
+		end := at + 2 + (int(enc1[at])<<8 | int(enc1[at+1]))
+		at += 2
+		var gotForeign [][]byte
+		segs := 0
+		for at+2 <= end && end <= len(enc1)-4 {
+			l := 2 + int(enc1[at+1])
+			if at+l > end {
+				break
+			}
+			if enc1[at] == 0x02 {
+				segs++
+			} else {
+				gotForeign = append(gotForeign, enc1[at:at+l])
+			}
+			at += l
+		}
+		ok := at == end && segs == len(keep) && len(gotForeign) == len(foreign)
+		for k := 0; ok && k < len(foreign); k++ {
+			ok = bytes.Equal(gotForeign[k], foreign[k])
+		}
+		if !ok {
+			c.Fail("list-replaced:foreign-descriptors", fmt.Sprintf("after SetDescriptors with a shorter list the encoded loop holds %d segmentation and %d foreign descriptors (expected %d and the %d foreign ones of the decoded section, in their order)", segs, len(gotForeign), len(keep), len(foreign)), w)
+		}
+		c.Class(fmt.Sprintf("list-replaced/foreign=%d/kept=%d", len(foreign), len(keep)))
+	})
 }
